@@ -673,6 +673,8 @@ def wl_lattice(rng, rec, tier):
     Lx, Ly = int(rng.integers(2, 4)), int(rng.integers(2, 4))
     D = int(rng.integers(1, 3))
     x = qtn.PEPS.rand(Lx, Ly, D, seed=int(rng.integers(1 << 30)), dtype=gen.choice(rng, ["float64", "complex128"]))
+    if rng.random() < 0.25:
+        x.exponent = float(gen.choice(rng, [0.5, -0.5, 1.0]))
     terms = {}
     for i in range(Lx):
         for j in range(Ly):
